@@ -168,12 +168,12 @@ func vhActionCheckLoad(s *ActionStore, m *vhActionModel, h uint64, r uint32) {
 	verifrt.Assert(vhKeyEq(ra.PubKey, e.key), "A6:loaded-key-is-the-recorded-signing-key")
 }
 
-// VH_C16_Action: up to two symbolic saves, then every ActionStore method with symbolic
+// VH_C16_Action: up to two (thorough: three) symbolic saves, then every ActionStore method with symbolic
 // arguments; after every save the touched round is loaded and compared with the model.
 func VH_C16_Action() {
 	s := NewActionStore()
 	m := &vhActionModel{}
-	n := verifrt.Choose("prefix-ops", 3)
+	n := verifrt.Choose("prefix-ops", vhMaxPrefix()+1)
 	for i := 0; i < n; i++ {
 		vhActionSave(s, m)
 	}
